@@ -218,6 +218,21 @@ theorem server_keeps_working (ops : List SL.SrvOp) (st : SL.SrvState) (h : st.1.
     ∃ st', SL.runSrv st ops = .ok st' ∧ st'.1.Inv :=
   CI.runSrv_totalP goodP_winv ops st h hp
 
+/-- `process_local_client` (in-process client object `cl`): server and client both satisfying the invariant,
+    counters in range for the two flushes it performs — returns normally, both invariants hold again -/
+theorem server_processLocalClient_total (s : Server) (h : s.Inv) (id : Nat) (cl : Conn) (hcl : cl.Inv)
+    (hc1 : ∀ c, SMap.find? s.conns id = some c → c.CountersOK)
+    (hc2 : ∀ s1 ps cl1, s.getPacketsToSend id = .ok (s1, some ps) → Server.feedClient cl ps = .ok cl1 →
+      cl1.CountersOK) :
+    ∃ s' cl' ok, s.processLocalClient id cl = .ok (s', cl', ok) ∧ s'.Inv ∧ cl'.Inv := by
+  obtain ⟨s', cl', ok, e, i1, i2, -⟩ := CI.server_processLocalClient_totalP goodP_winv h id hcl hc1 hc2
+  exact ⟨s', cl', ok, e, i1, i2⟩
+
+/-- the client object handed out by `new_local_client` satisfies the invariant -/
+theorem server_newLocalClient (s : Server) (h : s.Inv) (id : Nat) :
+    (s.newLocalClient id).1.Inv ∧ (s.newLocalClient id).2.Inv :=
+  ⟨CI.server_addConnection_invP h id, (CI.fromChannels_invP _ _ _).setConnected⟩
+
 /-! ## 6. the memory clause -/
 
 /-- every channel's counter equals what the channel actually holds and is at most the configured maximum; the
@@ -370,6 +385,39 @@ theorem exSrv_inv : exSrv.Inv := by
 
 example : exSrv.Inv ∧ exSrv.newConn.hasSend 2 ∧ exSrv.newConn.hasRecv 1 ∧ exSrv.conns.length = 2 :=
   ⟨exSrv_inv, by decide +kernel, by decide +kernel, by decide +kernel⟩
+
+/-! ### a local client -/
+
+def locSrv : Server :=
+  match ((Server.new 60000 cfg cfg).newLocalClient 7).1.sendMessage 7 0 [1, 2, 3] with
+  | .ok s => s | _ => Server.new 0 [] []
+def locCl : Conn :=
+  match ((Server.new 60000 cfg cfg).newLocalClient 7).2.sendMessage 0 [4, 5] with
+  | .ok c => c | _ => c0
+def locPs : List Bytes := match locSrv.getPacketsToSend 7 with | .ok (_, some ps) => ps | _ => []
+def locCl1 : Conn := match Server.feedClient locCl locPs with | .ok c => c | _ => locCl
+
+/-- the hypotheses of `server_processLocalClient_total` are satisfiable: server holding local client 7 with a queued
+    message, client object with a queued message of its own -/
+example : locSrv.Inv ∧ locCl.Inv ∧ (∀ c, SMap.find? locSrv.conns 7 = some c → c.CountersOK) ∧
+    (∀ s1 ps cl1, locSrv.getPacketsToSend 7 = .ok (s1, some ps) → Server.feedClient locCl ps = .ok cl1 →
+      cl1.CountersOK) ∧ locPs.length = 1 ∧ locCl1.pendingAcks = [(0, 1)] := by
+  have hs0 := (server_newLocalClient (Server.new 60000 cfg cfg) (server_new _ _ _) 7)
+  refine ⟨?_, ?_, ?_, ?_, by decide +kernel, by decide +kernel⟩
+  · obtain ⟨s', e, i, -⟩ := CI.server_sendMessage_totalP hs0.1 7 0 [1, 2, 3] (by decide +kernel)
+    have : locSrv = s' := by unfold locSrv; rw [e]
+    rw [this]; exact i
+  · obtain ⟨c', e, i, -⟩ := CI.sendMessage_totalP hs0.2 0 [4, 5] (by decide +kernel)
+    have : locCl = c' := by unfold locCl; rw [e]
+    rw [this]; exact i
+  · intro c hc
+    have : CI.srvValidb locSrv (.getPacketsToSend 7) = true := by decide +kernel
+    exact CI.srvValid_of_b this c hc
+  · intro s1 ps cl1 e1 e2
+    have h1 : locPs = ps := by unfold locPs; rw [e1]
+    have h2 : locCl1 = cl1 := by unfold locCl1; rw [h1, e2]
+    rw [← h2]
+    exact CI.countersOK_of_b (by decide +kernel)
 
 end Ex
 end RenetVerif.C06
